@@ -221,6 +221,22 @@ def gen_ops(rng, n, tier):
             b[2] = min(b[2], [31, 29 if leap else 28, 31, 30, 31, 30, 31, 31, 30, 31, 30, 31][b[1] - 1])
         elif r < 0.6:
             b = list(a)
+        elif r < 0.75:
+            # two neighbouring fields apart in OPPOSITE directions (10:30:20.900 against 10:30:21.100, 31 January against 1 February): the order is decided by the
+            # more significant field alone, however far apart the less significant one
+            lims = [(1970, 9999), (1, 12), (1, 28), (0, 23), (0, 59), (0, 59), (0, 999)]
+            k = rng.choice([5, 5, 5, 4, 4, 3, 2, 1, 0])
+            a[2] = min(a[2], 28)
+            b = list(a)
+            lo, hi = lims[k]
+            a[k] = min(max(a[k], lo), hi - 1)
+            b[k] = a[k] + rng.choice([1, 1, 1, 2, 9]) if k != 0 else a[k] + 1
+            b[k] = min(b[k], hi)
+            lo2, hi2 = lims[k + 1]
+            a[k + 1] = rng.choice([hi2, hi2 - 1, rng.randint((lo2 + hi2) // 2, hi2)])
+            b[k + 1] = rng.choice([lo2, lo2 + 1, rng.randint(lo2, (lo2 + hi2) // 2)])
+            if rng.random() < 0.5:
+                a, b = b, a
         else:
             b = rand_date(rng)
         cases.append({'a': a, 'b': b, 'edit': rng.choice([None, None, 'fields', 'copy']), 'zones': rng.choice([[0, 0], [0, 0], [2, 0], [-3, 2], [1, 1]]), 'addms': rng.random() < 0.4, 'n': rng.choice([2, 5, 30, -3, -20, 0, 1, 59, 60, 3600, 86400, 86399, 31536000, -1, -86400, rng.randint(-10 ** 7, 10 ** 8)])})
@@ -310,7 +326,7 @@ def oracle_ops(case, obs):
 
 S_OPS = Stream(
     name='ops', budget={'quick': 1500, 'thorough': 40000},
-    rule=('pairs of well-formed timestamps (half of them reached by editing the calendar fields of an object that was already converted / shifted / compared, or a copy of it): one field apart by one unit (50%), equal (10%), independent (40%), years 1970..2110, ms included; '
+    rule=('pairs of well-formed timestamps (half of them reached by editing the calendar fields of an object that was already converted / shifted / compared, or a copy of it): one field apart by one unit (50%), equal (10%), two neighbouring fields apart in opposite directions (15%), independent (25%), years 1970..2110, ms included; '
           'observed: < > <= >= == !=, toAbsTime, and addSec(n) for offsets crossing minute/hour/day/year ends; non-trivial = the two differ'),
     imports=IMPORTS, case_type='date * date * date * (bool*bool*bool*bool*bool) * Z * option date * Q',
     check_def=('''Definition beq (a b : bool) : bool := if a then b else negb b.
